@@ -74,6 +74,9 @@ func (fr *frame) mapInsert(m *omap, k, v value) {
 		panic(rtPanic("assignment to entry in nil map"))
 	}
 	i := fr.i
+	if i.shared != nil {
+		i.sharedMapWrite(m)
+	}
 	if e := fr.mapFind(m, k); e != nil {
 		i.setCell(&e.val, v)
 		return
@@ -112,6 +115,9 @@ func (fr *frame) mapDelete(m *omap, k value) {
 
 func (fr *frame) mapRemoveEntry(m *omap, e *mapEntry) {
 	i := fr.i
+	if i.shared != nil {
+		i.sharedMapWrite(m)
+	}
 	old := m.entries
 	ne := make([]*mapEntry, 0, len(old))
 	for _, x := range old {
